@@ -414,7 +414,7 @@ fn covenant_scenario(mon: &mut C09, case_seed: u64) {
     let mut fab = Fab::new(net, height);
     let mut progs: Vec<(String, Vec<u8>)> = vec![];
     for k in 0..6 {
-        let (name, ops): (&str, Vec<Op>) = match r.below(8) {
+        let (name, ops): (&str, Vec<Op>) = match r.below(10) {
             0 => {
                 // byte-string doubling (kept below 2^62 elements) followed by a consumer
                 let rounds = 1 + r.usize(60);
@@ -451,6 +451,33 @@ fn covenant_scenario(mon: &mut C09, case_seed: u64) {
                 v
             }),
             5 => ("deep-env-access", vec![pushi(r.below(300) as u128), pushi(r.below(12) as u128), Op::LoadImm(r.below(12) as u16), Op::VRef, Op::VRef]),
+            8 | 9 => {
+                // slices, references and updates at, inside and beyond the ends of a short vector / byte string,
+                // with the two indexes in either order
+                let len = r.usize(5);
+                let vector = r.chance(1, 2);
+                let mut v = vec![];
+                if vector {
+                    v.push(Op::VEmpty);
+                    for i in 0..len {
+                        v.push(pushi(i as u128));
+                        v.push(Op::VCons);
+                    }
+                } else {
+                    v.push(Op::PushB(vec![7u8; len]));
+                }
+                v.push(Op::StoreImm(50));
+                let a = r.below(len as u64 + 3) as u128;
+                let b = r.below(len as u64 + 3) as u128;
+                let big = *r.pick(&[0u128, 1, u64::MAX as u128, u128::MAX]);
+                match r.below(4) {
+                    0 => v.extend([pushi(a), pushi(b), Op::LoadImm(50), if vector { Op::VSlice } else { Op::BSlice }]),
+                    1 => v.extend([pushi(a.max(big)), Op::LoadImm(50), if vector { Op::VRef } else { Op::BRef }]),
+                    2 => v.extend([pushi(9), pushi(a), Op::LoadImm(50), if vector { Op::VSet } else { Op::BSet }]),
+                    _ => v.extend([pushi(big), pushi(b), Op::LoadImm(50), if vector { Op::VSlice } else { Op::BSlice }]),
+                }
+                ("index-boundaries", v)
+            }
             6 => ("exp-and-shift", vec![pushi(r.u128()), pushi(r.u128()), Op::Exp(r.next() as u8), pushi(r.below(300) as u128), Op::Shl, Op::ItoB, Op::BtoI]),
             _ => ("always-true", vec![pushi(1)]),
         };
@@ -564,7 +591,7 @@ pub fn run(p: &Params) -> Report {
     let mut rng = Rng::new(p.shard_seed() ^ 0xC09);
     let journal = p.journal.as_ref().and_then(|j| std::fs::File::create(j).ok());
     let mut mon = C09 { rep: Report::new("C09"), case_seed: 0, journal };
-    mon.rep.rule = "cases = API calls (apply_tx_batch, seal, next_unsealed, apply_block, confirm, from_block+header) on random histories over all network classes and fabricated heights with: one hostile mutation per batch (16 field-level mutators + byte-level mutation of the serialization that still deserializes), degenerate requests (zero-valued swaps/deposits/withdrawals, empty/garbage/partial MelPoW proofs at difficulties 0..2^32, undecodable stake documents, faucet-minted liquidity tokens, maximal values), every proposer delta class, multipliers 0..2^40; coins locked by adversarial covenant programs (self-append doubling up to 2^60 elements, nested loops, random bytes/instructions, environment digging) spent through apply_tx; histories in which a user creates (and empties) the ERG/SYM pool before the rules enable the built-in one; transactions with 255/256/257/up to 700 inputs of existing coins, 255/256 outputs and hundreds of covenants and signature slots; every call runs under catch_unwind with a panic hook that records message, location and originating crate; each shard is its own process with a journal so an abort is attributed. Supply per denomination is kept below 2^127 by construction. Non-trivial = batch with a hostile or degenerate member; distinct by member hashes".into();
+    mon.rep.rule = "cases = API calls (apply_tx_batch, seal, next_unsealed, apply_block, confirm, from_block+header) on random histories over all network classes and fabricated heights with: one hostile mutation per batch (16 field-level mutators + byte-level mutation of the serialization that still deserializes), degenerate requests (zero-valued swaps/deposits/withdrawals, empty/garbage/partial MelPoW proofs at difficulties 0..2^32, undecodable stake documents, faucet-minted liquidity tokens, maximal values), every proposer delta class, multipliers 0..2^40; coins locked by adversarial covenant programs (self-append doubling up to 2^60 elements, nested loops, random bytes/instructions, environment digging, slices/references/updates at, inside and beyond the ends with indexes in either order) spent through apply_tx; histories in which a user creates (and empties) the ERG/SYM pool before the rules enable the built-in one; transactions with 255/256/257/up to 700 inputs of existing coins, 255/256 outputs and hundreds of covenants and signature slots; every call runs under catch_unwind with a panic hook that records message, location and originating crate; each shard is its own process with a journal so an abort is attributed. Supply per denomination is kept below 2^127 by construction. Non-trivial = batch with a hostile or degenerate member; distinct by member hashes".into();
     if p.shard == 0 && p.only_case.is_none() {
         probes(&mut mon);
     }
